@@ -1,12 +1,15 @@
 SPEC = {
     "id": "C18",
     "props_file": "Props/C18.v",
-    "gen": [],
+    "gen": ["pcsvectors"],
     "streams": [
         {"name": "pcs", "cmd": "pcs",
          "args": {"quick": ["-bits", "1000", "-multi", "120", "-collflips", "100", "-synth", "300"],
                   "thorough": ["-allbits", "-multi", "1500", "-collflips", "1500", "-synth", "6000"]},
          "search_args": ["-bits", "6000", "-multi", "800", "-collflips", "600", "-synth", "3000"]},
+        {"name": "node", "cmd": "pcs",
+         "args": {"quick": ["-mode", "node", "-cases", "300"], "thorough": ["-mode", "node", "-cases", "8000"]},
+         "search_args": ["-mode", "node", "-cases", "4000"]},
     ],
     "trusted_base": [
         "Coq 8.16.1 kernel (coqc; coqchk in the thorough tier); no native_compute; Uint63 primitive integers are used only by the correspondence fingerprint fp, not by any theorem",
@@ -14,13 +17,17 @@ SPEC = {
         "the PCK leaf's SGX-extension decoder is consulted through the exported QuoteSignatureECDSA_P256.VerifyPCK (only when the harness's own chain validation succeeds)",
         "error strings of the implementation are mapped to the model's rejection reasons by substring (classify in harness/cmd/pcs/main.go)",
         "synthetic bundles are verified under a harness-generated root added to the exported variable pcs.IntelTrustRoots (no file of /repo is changed, no hook)",
-        "vm_compute evaluation of Verif.Pcs.Model on the recorded cases (no extraction)",
+        "vm_compute evaluation of Verif.Pcs.Model / Verif.Pcs.Node on the recorded cases (no extraction)",
+        "harness/cmd/gen pcsvectors (copies the testdata vectors into coq/Gen/PcsVectors.v; the harness refers to the same constants)",
+        "node stream: harness/cmd/pcs -mode node drives the real node.CapabilityTEE.Verify; CBOR decoding of attestation/constraints is done by the real code and its result is the model's input; SHA-512/256, TupleHash and Ed25519 (signature.PublicKey.Verify) are real in the correspondence and abstract in the theorems; the model's copy of the RAK-binding context string is checked against node.HashRAK on every case",
+        "table lookups by 63-bit fingerprint: the harness registers every fingerprint with the SHA-256 of its argument and aborts (exit 4) if two different arguments share one; a model-side query of an unrecorded argument colliding with a recorded one has probability about 2^-63 per query",
         "abstract in the theorems (Section variables / record Prims): SHA-256, ECDSA-P256 verification, P-256 point validation, PEM and X.509 parsing and path validation, SGX extension decoding, encoding/json and time.Parse, TupleHash",
     ],
     "assumptions": [
         "validity_window_interval assumes the X.509 path-validation predicates are interval-shaped in the verification time (stated as explicit hypotheses)",
         "the validity window is the code's: issueDate <= ts <= issueDate + policy.TCBValidityPeriod days; nextUpdate is parsed but not compared with ts (accept_implies_before_next_update_refuted; observed on the implementation and reported in coverage.streams.pcs.extra)",
         "FMSPC white/blacklists are compared with the TCB info's FMSPC string, case-sensitively (fmspc_blacklist_by_value_refuted; observed and reported in extra)",
+        "node layer: the IAS branch of quote.Quote.Verify is not modelled (NNotModelled, never generated); with the SignedAttestations feature off, node id / height / REK / signature are not bound (unsigned_attestation_frame)",
         "process switches unsafeSkipVerify and the MRSIGNER blacklist are not exercised by the harness (the blacklist is modelled; skip-verify is not)",
     ],
 }
